@@ -400,7 +400,7 @@ C09_CATS = {'params', 'builds-conflict', 'builds-param', 'ctx-mutated', 'constru
 def run(ctx, cats):
     from .core import MachineryError
 
-    mod = 97 if ctx.quick() else 3
+    mod = 97 if ctx.quick() else 11
     text, cfg, sizes = mc(ctx.tier, ctx.seed, mod)
     res = run_tlc('MCResolve', cfg_text=cfg, extra_files={'MCResolve.tla': text}, workers=16, timeout=3000)
     account(ctx, res, f'Resolve: forests with menu sizes {sizes}, 1/{mod} of the product enumerated')
